@@ -1093,7 +1093,7 @@ def gen_C07(tier, seed):
     for v in (MINV, MINV + 1, MAXV - 1, -SPAN10K * 3, SPAN10K * 3, 0):
         for t1, t2 in ((0, 2), (0, 3), (2, 0), (3, 0), (2, 3), (3, 2), (4, 2), (2, 4), (3, 4), (4, 3)):
             out.append(f"convf {p3(parts_of(v) + (t1,))} {t2}")
-    n = budget(tier, 12000, 600000)
+    n = budget(tier, 12000, 120000)      # the Flocq model costs ~40 ms per conversion: 120 000 cases = ~6 min on 16 cores
     for _ in range(n):
         k = r.random()
         if k < 0.5:
